@@ -51,6 +51,8 @@ pub fn profile(id: &str) -> Profile {
         }
         "C07" => {
             p.opw = OpW { futdesync: 12, after: 6, await_: 10, syncwait: 5, pollonce: 6, dropfut: 5, detach: 3, desync: 4, sync: 3, futsync: 1, trysync: 1, ..OpW::default() };
+            p.objects = (1, 2);
+            p.callers = (2, 4);
             p.gates = (1, 3);
             p.wakers = (1, 2);
         }
